@@ -138,4 +138,187 @@ theorem recvPollTrailers_lt (s : Streams) (k : Nat) (t : String) : LT [k] s (s.r
 theorem recvPollInformational_lt (s : Streams) (k : Nat) (t : String) : LT [k] s (s.recvPollInformational k t).1 := by
   unfold Streams.recvPollInformational; lt_auto
 
+theorem modCountsA_incReset_lt (s : Streams) (m : String) (h : s.counts.canIncNumResetStreams = true) :
+    LT ks s (s.modCountsA m Counts.incNumResetStreams) :=
+  modCountsA_lt s m _ { s.counts with numLocalResetStreams := s.counts.numLocalResetStreams + 1 }
+    (by unfold Counts.incNumResetStreams; rw [if_pos h]) ⟨rfl, rfl⟩
+
+theorem modCountsA_incRemote_lt (s : Streams) (m : String) (h : s.counts.canIncNumRemoteResetStreams = true) :
+    LT ks s (s.modCountsA m Counts.incNumRemoteResetStreams) :=
+  modCountsA_lt s m _ { s.counts with numRemoteResetStreams := s.counts.numRemoteResetStreams + 1 }
+    (by unfold Counts.incNumRemoteResetStreams; rw [if_pos h]) ⟨rfl, rfl⟩
+
+theorem enqueueResetExpiration_lt (s : Streams) (k : Nat) : LT [k] s (s.enqueueResetExpiration k) := by
+  unfold Streams.enqueueResetExpiration
+  dsimp only
+  split
+  · exact .refl _ _
+  · split
+    · next hc =>
+      exact LT.trans (modCountsA_incReset_lt (ks := [k]) s _ hc) (qPush_lt _ _ _) (fun _ h => h)
+    · exact .refl _ _
+
+theorem recvRecvReset_pre_lt (s : Streams) (k : Nat) :
+    LT [k] s (if (s.stream k).isPendingAccept = true then
+      if s.counts.canIncNumRemoteResetStreams = true then
+        (s.modCountsA "can_inc_num_remote_reset_streams" Counts.incNumRemoteResetStreams, (none : Option PErr))
+      else (s, some (PErr.libraryGoAwayData ENHANCE_YOUR_CALM "too_many_resets"))
+    else (s, none)).1 := by
+  split
+  · split
+    · next hc => exact modCountsA_incRemote_lt s _ hc
+    · exact .refl _ _
+  · exact .refl _ _
+
+theorem recvRecvReset_lt (s : Streams) (k : Nat) (r : Reason) : LT [k] s (s.recvRecvReset k r).1 := by
+  unfold Streams.recvRecvReset
+  dsimp only
+  split
+  · next heq => exact LT.of_fst_eq heq (recvRecvReset_pre_lt s k)
+  · next heq =>
+    have h1 := LT.of_fst_eq heq (recvRecvReset_pre_lt s k)
+    lt_auto
+
+theorem modRecv_stream (s : Streams) (f : Recv → Recv) (j : Nat) : (s.modRecv f).stream j = s.stream j := rfl
+theorem modRecv_counts (s : Streams) (f : Recv → Recv) : (s.modRecv f).counts = s.counts := rfl
+
+theorem recvRecvHeaders_lt (s : Streams) (k : Nat) (h : HeadersIn) : LT [k] s (s.recvRecvHeaders k h).1 := by
+  unfold Streams.recvRecvHeaders
+  split
+  · exact .refl _ _
+  · next st' isInitial heq =>
+    dsimp only
+    generalize hs1 : Streams.modStream s k _ = s1
+    have h1 : LT [k] s s1 := by rw [← hs1]; exact modStream_lt _ _ _ (fun _ => by inert_tac)
+    split
+    · exact h1
+    · next hguard =>
+      generalize hs2 : (if (isInitial && !(s1.stream k).isCounted) = true then _ else s1) = s2
+      have h2 : LT [k] s s2 := by
+        rw [← hs2]
+        split
+        · next hc =>
+          have hc1 : (s1.stream k).isCounted = false := by
+            cases hh : (s1.stream k).isCounted with
+            | false => rfl
+            | true => rw [hh] at hc; simp at hc
+          have hc2 : s1.counts.canIncNumRecvStreams = true := by
+            cases hh : s1.counts.canIncNumRecvStreams with
+            | true => rfl
+            | false =>
+              rw [hh] at hguard; simp at hguard
+              simp only [Bool.and_eq_true, Bool.not_eq_true'] at hc
+              have := hguard hc.1; rw [hc1] at this; cases this
+          refine LT.trans (ks' := [k]) ?_ (incNumRecvStreams_lt _ _ ?_ ?_) (fun _ h => h)
+          · split
+            · exact h1.trans (modRecv_lt _ _) (fun _ h => absurd h List.not_mem_nil)
+            · exact h1
+          · split
+            · exact hc2
+            · exact hc2
+          · split
+            · exact hc1
+            · exact hc1
+        · exact h1
+      lt_auto
+
+/-- frame of one projection of every stream -/
+def SPr {α : Type} (P : Stream → α) (s s' : Streams) : Prop := ∀ j, P (s'.stream j) = P (s.stream j)
+theorem SPr.refl {α : Type} (P : Stream → α) (s : Streams) : SPr P s s := fun _ => rfl
+theorem SPr.trans {α : Type} {P : Stream → α} {a b c : Streams} (h1 : SPr P a b) (h2 : SPr P b c) : SPr P a c :=
+  fun j => (h2 j).trans (h1 j)
+theorem SPr.of_store {α : Type} {P : Stream → α} {s s' : Streams} (h : s'.store = s.store) : SPr P s s' :=
+  fun j => by unfold Streams.stream; rw [h]
+theorem SPr.setStream {α : Type} {P : Stream → α} (s : Streams) (k : Nat) (st' : Stream) (hk : st'.key = k)
+    (h : P st' = P (s.stream k)) : SPr P s (s.setStream st') := by
+  intro j
+  rcases setStream_stream s st' j with e | ⟨e, hj, _⟩
+  · rw [e]
+  · rw [e, hj, hk]; exact h
+theorem SPr.modStream {α : Type} {P : Stream → α} (s : Streams) (k : Nat) (f : Stream → Stream) (hk : ∀ x, (f x).key = x.key)
+    (h : ∀ x, P (f x) = P x) : SPr P s (s.modStream k f) := by
+  unfold Streams.modStream
+  split
+  · next st hst =>
+    refine SPr.setStream s k _ ((hk st).trans (get?_key hst)) ?_
+    rw [stream_of_get? hst]; exact h st
+  · exact .of_store (panic_store _ _)
+
+theorem decContentLength_spec {x y : Stream} {n : Nat} (h : x.decContentLength n = some y) :
+    Inert x y ∧ y.recvFlow = x.recvFlow := by
+  unfold Stream.decContentLength at h
+  split at h
+  · split at h
+    · cases h; exact ⟨⟨rfl, rfl, id⟩, rfl⟩
+    · cases h
+  · split at h
+    · cases h
+    · cases h; exact ⟨Inert.refl _, rfl⟩
+  · cases h; exact ⟨Inert.refl _, rfl⟩
+
+theorem consumeConnectionWindow_store (s : Streams) (sz : Nat) : (s.consumeConnectionWindow sz).1.store = s.store := by
+  unfold Streams.consumeConnectionWindow
+  split
+  · rfl
+  · split
+    · rfl
+    · exact panic_store _ _
+    · rfl
+
+theorem recvRecvData_lt (s : Streams) (k : Nat) (payload : Bytes) (eos : Bool) (pad : Option Nat)
+    (hlen : payload.length + (match pad with | some p => p + 1 | none => 0) ≤ Generated.Consts.MAX_WINDOW_SIZE) :
+    LT [k] s (s.recvRecvData k payload eos pad).1 := by
+  unfold Streams.recvRecvData
+  cases pad <;> dsimp only at hlen ⊢
+  all_goals (
+    have hn : ∀ x, x ≤ Generated.Consts.MAX_WINDOW_SIZE → ¬ x > Generated.Consts.MAX_WINDOW_SIZE := fun x h => by omega
+    simp only [if_neg (hn _ hlen)])
+  all_goals (
+    split
+    · exact .refl _ _
+    split
+    · lt_auto
+    split
+    · lt_auto
+    · next s1 _ heq1 =>
+      have h1 : LT [k] s s1 := LT.of_fst_eq heq1 ((consumeConnectionWindow_lt s _).mono (fun _ h => absurd h List.not_mem_nil))
+      split
+      · exact h1
+      · next hw =>
+        split
+        · exact h1
+        · next st1 hdc =>
+          have hsp := decContentLength_spec hdc
+          generalize hs2 : s1.setStream st1 = s2
+          have hkey : st1.key = k := hsp.1.key.trans (stream_key _ _)
+          have h2 : LT [k] s s2 := by
+            rw [← hs2]; exact h1.trans (setStream_lt s1 k st1 hsp.1) (fun _ h => h)
+          have hf2 : SPr (·.recvFlow) s1 s2 := by
+            rw [← hs2]; exact SPr.setStream s1 k st1 hkey hsp.2
+          -- the END_STREAM step
+          generalize hs3 : (if eos = true then _ else (s2, (none : Option PErr))) = p3
+          have h3 : LT [k] s p3.1 ∧ SPr (·.recvFlow) s1 p3.1 := by
+            rw [← hs3]
+            split
+            · split
+              · exact ⟨h2, hf2⟩
+              · split
+                · exact ⟨h2, hf2⟩
+                · exact ⟨h2.trans (modStream_lt _ _ _ (fun _ => by inert_tac)) (fun _ h => h),
+                    hf2.trans (SPr.modStream _ _ _ (fun _ => rfl) (fun _ => rfl))⟩
+            · exact ⟨h2, hf2⟩
+          split
+          · exact h3.1
+          · next s4 =>
+            have h4 : LT [k] s s4 := h3.1
+            have hf4 : (s4.stream k).recvFlow = (s1.stream k).recvFlow := h3.2 k
+            split
+            · lt_auto
+            · split
+              · lt_auto
+              · next heq5 =>
+                rw [hf4] at heq5
+                exact absurd heq5 (sendData_no_assert _ _ hw _)
+              · lt_auto)
+
 end H2V.Lemmas.ConnNoPanicP
